@@ -15,7 +15,7 @@ ID = 'C20'
 LEVEL = 'exploration'
 RUNS = {'quick': 40000, 'thorough': 800000}
 CHUNK = 100
-PROBES = ['consumer_edits_returned_traces', 'long_window', 'fault_no_nested', 'fault_first_decoded', 'fault_first_undecoded', 'fault_two_decoded_kinds', 'fault_failed_result',
+PROBES = ['caller_table_with_look_alike_names', 'consumer_edits_returned_traces', 'long_window', 'fault_no_nested', 'fault_first_decoded', 'fault_first_undecoded', 'fault_two_decoded_kinds', 'fault_failed_result',
           'fault_other_thread_real_fault_between', 'launch_empty', 'launch_unsorted_maps', 'launch_equal_addresses',
           'launch_shared_cache', 'launch_unrelated_inside', 'sample_flag_without_record', 'sample_record_without_flag',
           'sample_both', 'sample_neither', 'lost_nested_record', 'nested_composite_in_composite']
@@ -32,10 +32,35 @@ PROT_BITS = [0x01, 0x02, 0x04, 0x08, 0x10, 0x20, 0x40]
 SMALL_POOL = [0, 1, 77, 4242, 600, 607, 614]
 
 
+NESTED_NAMES = ('RealFaultAddressInternal', 'RealFaultAddressExternal', 'RealFaultAddressSharedCache', 'DYLD_uuid_map_a',
+                'DYLD_uuid_shared_cache_a', 'PERF_THD_Data', 'PERF_STK_UHdr', 'PERF_STK_UData')
+
+
+def _near_miss(rng):
+    """A record whose id differs from the id of a kind the composites collect in exactly one byte (another class, another
+    subclass, a neighbouring code): it is not that kind."""
+    cat = worlds.catalog()
+    ids = cat['ids']
+    base = ids[rng.pick([n for n in NESTED_NAMES if n in ids])]
+    r = rng.random()
+    if r < 0.4:
+        eid = (base & 0x00ffffff) | (rng.pick([2, 5, 0x21, 0xff, (base >> 24) ^ 1]) << 24)
+    elif r < 0.7:
+        eid = (base & 0xff00ffff) | ((((base >> 16) & 0xff) ^ rng.pick([1, 2, 0x10, 0x80])) << 16)
+    else:
+        eid = base + rng.pick([-4, 4, 0x100, 0x1000])
+    eid &= 0xfffffffc
+    if eid in cat['all_ids'] and tool.codes().get(eid) in cat['names_set']:
+        eid = 0xf1320008       # (never a decodable one)
+    return {'k': 'raw', 'id': eid, 'q': rng.pick([0, 0, 3]), 'a': rng.words()}
+
+
 def _unrelated(rng):
     cat = worlds.catalog()
     r = rng.random()
-    if r < 0.12:
+    if r < 0.1:
+        return _near_miss(rng)
+    if r < 0.2:
         # a thread announcement whose pid / unique id come from the same small pool as the faults' pid words
         return {'k': 'one', 'name': 'TRACE_DATA_NEWTHREAD', 'q': 0, 'a': [900000 + rng.randrange(9), rng.pick(SMALL_POOL), rng.pick([0, 1]), rng.pick(SMALL_POOL)]}
     if r < 0.5:
@@ -83,6 +108,11 @@ def _launch(rng, depth=0):
             inner.append({'k': 'one', 'name': 'DYLD_uuid_unmap_a', 'q': 0, 'a': list(m_['a'])})
     for _ in range(rng.pick([0, 0, 1, 2])):
         inner.insert(rng.randrange(len(inner) + 1), _unrelated(rng))
+    if rng.chance(0.12):
+        # an image unmapped during the launch that was mapped before it began (no map record of it in this window)
+        um = worlds.op_imap(rng, worlds.draw_uuid(rng), base + rng.pick([0, 0x1000, 0x5000, rng.randrange(0, 1 << 20)]))
+        um['name'] = rng.pick(['DYLD_uuid_unmap_a', 'DYLD_uuid_unmap_a', 'DYLD_uuid_unmap_b'])
+        inner.insert(rng.randrange(len(inner) + 1), um)
     if depth == 0 and rng.chance(0.15):
         inner.insert(rng.randrange(len(inner) + 1), _fault(rng))
     if rng.chance(0.2):
@@ -100,7 +130,9 @@ def _sample(rng, tid):
     thd = (rng.randrange(1, 9999), tid) if rng.chance(0.5) else None
     nrows = rng.randint(0, 3)
     rows = [[rng.randrange(1, 1 << 47) for _ in range(4)] for _ in range(nrows)]
-    uhdr = (rng.randrange(0, 512), rng.pick([4 * nrows, max(0, 4 * nrows - 2), 4 * nrows + 3, 0])) if rng.chance(0.6) else None
+    # (header flag words: any, none of the named bits, only bits nobody names, single named ones)
+    uhdr = (rng.pick([rng.randrange(0, 512), rng.randrange(0, 512), 0, 0x200, 0x400, 0x100, 1, 2, 0x10, 0x20]),
+            rng.pick([4 * nrows, max(0, 4 * nrows - 2), 4 * nrows + 3, 0])) if rng.chance(0.6) else None
     extra = [_unrelated(rng) for _ in range(rng.pick([0, 0, 1, 2]))]
     if rng.chance(0.1):
         extra.append(_fault(rng))
@@ -143,8 +175,23 @@ def generate(rng, index, tier):
     if rng.chance(0.3):
         for _ in range(rng.randint(1, 2)):
             faults.append({'k': 'drop', 'at': rng.randrange(max(1, total))})
-    return {'threads': threads, 'schedule': sched, 'faults': faults, 'tsmode': worlds.draw_tsmode(rng), 'earlier_other': rng.chance(0.15),
-            'tmap': rng.chance(0.4), 'consumer_edits': rng.chance(0.2)}
+    scn = {'threads': threads, 'schedule': sched, 'faults': faults, 'tsmode': worlds.draw_tsmode(rng), 'earlier_other': rng.chance(0.15),
+           'tmap': rng.chance(0.4), 'consumer_edits': rng.chance(0.2)}
+    if rng.chance(0.08):
+        # the caller's code table names further ids, with names that merely begin like (or contain) the names of the nested kinds;
+        # records of those ids sit inside the windows: they are not those kinds
+        extra = {}
+        for j, nm in enumerate(NESTED_NAMES):
+            extra[str(0x2f00aa00 + 4 * j)] = rng.pick([nm + '32', nm + '_v2', 'X' + nm, nm[:-1], nm.lower(), nm + ' '])
+        scn['table'] = {'extra': extra}
+        for th in threads:
+            for op in th['ops']:
+                if op.get('k') == 'sys' and rng.chance(0.7):
+                    for _n in range(rng.randint(1, 2)):
+                        op['in'].insert(rng.randrange(len(op['in']) + 1), {'k': 'raw', 'id': 0x2f00aa00 + 4 * rng.randrange(len(NESTED_NAMES)), 'q': rng.pick([0, 0, 3]), 'a': rng.words()})
+        per = kernel.expand_threads(threads, ids)
+        scn['schedule'] = kernel.draw_schedule(rng, per, 'uniform')
+    return scn
 
 
 def _prot(bits):
@@ -175,6 +222,8 @@ def execute(scn):
     table, stream = worlds.build_stream(scn, fired)
     if scn.get('long'):
         bump('probe:long_window')
+    if isinstance(scn.get('table'), dict) and scn['table'].get('extra'):
+        bump('probe:caller_table_with_look_alike_names')
     if fired:
         bump('fault:lost_event', sum(fired.values()))
         bump('probe:lost_nested_record')
